@@ -29,11 +29,13 @@ TRUSTED_BASE = [
     "correspondence harness tools/props/c12.py, Corr/C12Judge.v, tools/vlib.py",
 ]
 ASSUMPTIONS = [
-    "element values are opaque tokens with a decidable equality (integers in the campaign); dtype casting of "
-    "assigned values is not modelled",
+    "element values are opaque tokens with a decidable equality in the core theorems; the cast "
+    "np.asarray(value, dtype) is described for int/bool dtypes only (Spec np_cast / Model dok_cast: wrap, truncate, "
+    "weak Python ints) and validated by the correspondence, not proved against NumPy; floats whose truncation does "
+    "not fit the dtype, NaN and inf are not described",
     "COO.__getitem__ on the key is taken at its meaning (per-axis integer / range of the normalised entry); "
     "its machinery is the subject of C02",
-    "keys: tuples of ints and slices (no Ellipsis / None), full-dimension equal-length integer lists, full-shape "
+    "keys: tuples of ints, slices, Ellipsis (None for reads only), full-dimension equal-length integer lists, full-shape "
     "boolean masks; an assignment that raises is modelled as leaving the dict unchanged (true for every key and "
     "value NumPy accepts)",
     "on a 1-d DOK, __setitem__ reads a tuple of integers as an integer list (d[(0, 1)] = v assigns two elements; "
@@ -45,7 +47,8 @@ EXC = {"ValueError": 1, "IndexError": 2, "TypeError": 3, "NotImplementedError": 
        "RuntimeError": 6, "OverflowError": 7}
 CLAUSES = {0: None, 3: "value_ndim_exceeds_slice_count", 4: "fancy_index_negative_or_out_of_range",
            5: "fancy_empty_index_list", 6: "fancy_value_not_0d_or_exact_length", 7: "bool_mask_key",
-           8: "bool_mask_read_1d_taken_as_integers",
+           8: "bool_mask_read_1d_taken_as_integers", 11: "numpy_int_scalar_out_of_dtype_range",
+           12: "newaxis_in_assignment_key", 13: "index_array_in_basic_key",
            10: "empty_tuple_key"}
 KINDS = {1: "representation", 2: "value", 3: "representation", 4: "value", 5: "value", 6: "representation",
          7: "representation"}
@@ -62,6 +65,14 @@ KIND_NOTE = {1: "implementation differs from the model but agrees with the Spec 
 def py_key(key, shape):
     import numpy as np
     t = key["t"]
+    if t == "index":
+        es = []
+        for e in key["es"]:
+            es.append(e[1] if e[0] == "i" else slice(e[1], e[2], e[3]) if e[0] == "s" else
+                      None if e[0] == "n" else Ellipsis)
+        if len(es) == 1:
+            return es[0]
+        return tuple(es)
     if t == "basic":
         es = [e[1] if e[0] == "i" else slice(e[1], e[2], e[3]) for e in key["es"]]
         if len(es) == 1:
@@ -81,10 +92,24 @@ def py_key(key, shape):
     raise ValueError(t)
 
 
-def py_value(op):
+def np_dtype(dt):
     import numpy as np
-    if not op["vsh"]:
+    return {"int64": np.int64, "int8": np.int8, "uint8": np.uint8, "bool": np.bool_}[dt]
+
+
+def py_value(op):
+    """the RAW value handed to __setitem__: kind pyint (default) / pyfloat / npint for a scalar, int / float
+    for an ndarray; floats are given as numerators over 4"""
+    import numpy as np
+    kind = op.get("vk", "int")
+    if not op["vsh"] and kind in ("int", "pyint"):
         return int(op["vflat"][0])
+    if kind == "pyfloat":
+        return op["vflat"][0] / 4.0
+    if kind == "npint":
+        return np.int64(op["vflat"][0])
+    if kind == "float":
+        return (np.array(op["vflat"], dtype=np.float64) / 4.0).reshape(op["vsh"])
     return np.array(op["vflat"], dtype=np.int64).reshape(op["vsh"])
 
 
@@ -106,12 +131,27 @@ def impl_history(case):
     import numpy as np
     import sparse
     shape, fill, ops = tuple(case["shape"]), case["fill"], case["ops"]
-    d = sparse.DOK(shape, dtype=np.int64, fill_value=fill)
-    n = np.full(shape, fill, dtype=np.int64)
+    dt = np_dtype(case.get("dtype", "int64"))
+    fv = bool(fill) if dt is np.bool_ else fill
+    d = sparse.DOK(shape, dtype=dt, fill_value=fv)
+    n = np.full(shape, fv, dtype=dt)
     out = {"s0": snapshot(d), "steps": []}
     for op in ops:
         st = {}
-        for which, a in (("impl", d), ("np", n)):
+        if op["k"] == "round":
+            try:
+                d = sparse.DOK.from_coo(d.asformat("coo"))
+                st["impl"] = {"ok": True}
+                if not (d.shape == shape and d.dtype == np.dtype(dt) and int(d.fill_value) == int(fv)):
+                    st["impl"] = {"exc": "RoundtripChangedShapeDtypeOrFill"}
+            except Exception as ex:  # noqa: BLE001
+                st["impl"] = {"exc": type(ex).__name__, "msg": str(ex)[:80]}
+            st["np"] = {"ok": True}
+            st["after"] = snapshot(d)
+            out["steps"].append(st)
+            continue
+        for which in ("impl", "np"):
+            a = d if which == "impl" else n
             try:
                 k = py_key(op["key"], shape)
                 if op["k"] == "set":
@@ -132,7 +172,7 @@ def impl_history(case):
     try:
         c = d.asformat("coo")
         fin["coo"] = [[[int(x) for x in col] for col in c.coords.T], [int(x) for x in c.data]]
-        if not (c.shape == shape and int(c.fill_value) == fill):
+        if not (c.shape == shape and int(c.fill_value) == int(fv) and c.dtype == np.dtype(dt)):
             fin["coo"] = None
             fin["coo_exc"] = "shape/fill"
     except Exception as ex:  # noqa: BLE001
@@ -147,6 +187,13 @@ def impl_history(case):
 # ------------------------------------------------------------------ Coq literals
 def key_lit(key):
     t = key["t"]
+    if t == "index":
+        es = []
+        for e in key["es"]:
+            es.append(f"IInt {vZ(e[1])}" if e[0] == "i" else
+                      f"ISlice {vopt(e[1])} {vopt(e[2])} {vopt(e[3])}" if e[0] == "s" else
+                      "INone" if e[0] == "n" else "IEllipsis")
+        return "KIndex [" + "; ".join(es) + "]"
     if t == "basic":
         es = []
         for e in key["es"]:
@@ -174,18 +221,36 @@ def out_lit(o):
     return "JOk"
 
 
+DT_LIT = {"int64": "DInt 64 true", "int8": "DInt 8 true", "uint8": "DInt 8 false", "bool": "DBool"}
+
+
+def raw_lit(op):
+    kind = op.get("vk", "int")
+    if not op["vsh"] and kind in ("int", "pyint"):
+        return f"RPyInt {vZ(op['vflat'][0])}"
+    if kind == "pyfloat":
+        return f"RPyFloat {vZ(op['vflat'][0])} 4"
+    if kind == "npint":
+        return f"RNpInt {vZ(op['vflat'][0])}"
+    if kind == "float":
+        return f"RFloatArr {vlist(op['vsh'])} {vlist(op['vflat'], lambda x: '(' + vZ(x) + ', 4)')}"
+    return f"RIntArr {vlist(op['vsh'])} {vlist(op['vflat'])}"
+
+
 def hist_lit(case, res):
     steps = []
     for op, st in zip(case["ops"], res["steps"], strict=True):
         if op["k"] == "set":
-            ol = f"JSet ({key_lit(op['key'])}) {vlist(op['vsh'])} {vlist(op['vflat'])}"
+            ol = f"JSet ({key_lit(op['key'])}) ({raw_lit(op)})"
+        elif op["k"] == "round":
+            ol = "JRound"
         else:
             ol = f"JGet ({key_lit(op['key'])})"
         steps.append(f"({ol}, {out_lit(st['impl'])}, {state_lit(st['after'])}, {out_lit(st['np'])})")
     f = res["final"]
     coo = "None" if f["coo"] is None else f"(Some ({vlist(f['coo'][0], vlist)}, {vlist(f['coo'][1])}))"
     fin = f"({vopt(f['todense'], vlist)}, {coo}, {vZ(f['nnz'])}, {vlist(f['np'])})"
-    return (f"({vlist(case['shape'])}, {vZ(case['fill'])}, {state_lit(res['s0'])}, "
+    return (f"({DT_LIT[case.get('dtype', 'int64')]}, {vlist(case['shape'])}, {vZ(case['fill'])}, {state_lit(res['s0'])}, "
             f"[{'; '.join(steps)}], {fin})")
 
 
@@ -330,6 +395,80 @@ def rnd_basic_key(rng, shape, tags, for_read=False):
     return {"t": "basic", "es": es}
 
 
+def rnd_index_key(rng, shape, tags, for_read=False):
+    """a general basic index: ints / slices around one Ellipsis, sometimes None entries"""
+    nd = len(shape)
+    k = rng.randint(0, nd)                     # axes indexed explicitly
+    nb = rng.randint(0, k)                     # ... of which before the Ellipsis
+    axes = list(range(nb)) + list(range(nd - (k - nb), nd))
+    es = []
+    for j, ax in enumerate(axes):
+        if j == nb:
+            es.append(["e"])
+        d = shape[ax]
+        es.append(rnd_slice(rng, d) if rng.random() < 0.5 else ["i", rnd_int(rng, d, valid=rng.random() < 0.97)])
+    if nb == len(axes):
+        es.append(["e"])
+    r = rng.random()
+    if r < 0.03:
+        es.insert(rng.randint(0, len(es)), ["e"])          # two Ellipses: IndexError on both sides
+        tags.append("key:two_ellipses")
+    if rng.random() < (0.35 if for_read else 0.08):
+        for _ in range(rng.randint(1, 2)):
+            es.insert(rng.randint(0, len(es)), ["n"])
+        tags.append("key:newaxis" + ("_read" if for_read else "_assignment"))
+    if rng.random() < 0.1 and len(es) > 1:
+        es = [e for e in es if e[0] != "e"] or es       # None / ints / slices without an Ellipsis
+    tags.append("key:ellipsis")
+    if any(e[0] == "s" and (e[3] or 1) < 0 for e in es):
+        tags.append("step:negative")
+    return {"t": "index", "es": es}
+
+
+def np_sel_shape(key, shape):
+    import numpy as np
+    try:
+        return list(np.empty(shape)[py_key(key, shape)].shape)
+    except Exception:  # noqa: BLE001
+        return None
+
+
+DT_RANGE = {"int8": (-128, 127), "uint8": (0, 255), "bool": (0, 1)}
+
+
+def retype_value(rng, dt, fill, vsh, vflat, tags):
+    """turn an int64 value into a raw value exercising the cast to a small dtype"""
+    lo, hi = DT_RANGE[dt]
+    scalar = not vsh
+    r = rng.random()
+    if r < 0.3:
+        vals = [v if lo <= v <= hi else fill for v in vflat]
+        tags.append("cast:int_in_range")
+        return vals, "int"
+    if r < 0.5:
+        vals = [rng.choice([300, -129, 256, 255, -1, 128, -200, 511, 127, -128, 2, fill + 256]) for _ in vflat]
+        tags.append("cast:pyint_maybe_overflow" if scalar else "cast:int_array_wraps")
+        return vals, "int"
+    if r < 0.8:
+        # floats as numerators over 4; the truncation stays inside the dtype
+        vals = []
+        for _ in vflat:
+            t = rng.randint(-3 if lo == 0 else -30, 30)
+            if dt == "bool":
+                t = rng.choice([0, 0, 1, 2, -2, 4, 7])
+            vals.append(t)
+        tags.append("cast:float")
+        return vals, ("pyfloat" if scalar else "float")
+    if scalar:
+        if r < 0.93:
+            tags.append("cast:npint_in_range")
+            return [rng.randint(lo, hi)], "npint"
+        tags.append("cast:npint_out_of_range")
+        return [rng.choice([300, -129, 256, -1 if lo == 0 else 128])], "npint"
+    tags.append("cast:int_in_range")
+    return [v if lo <= v <= hi else fill for v in vflat], "int"
+
+
 def rnd_fancy_key(rng, shape, tags, corrupt=False):
     nd = len(shape)
     n = rng.choice([0, 1, 1, 2, 2, 3, 4])
@@ -358,15 +497,35 @@ def gen_history(rng, maxlen):
             size *= d
         if size <= 60:
             break
+    dt = rng.choice(["int64"] * 7 + ["int8", "int8", "uint8", "bool"])
     fill = rng.choice([0, 0, 3, -1])
+    if dt == "uint8":
+        fill = rng.choice([0, 0, 3])
+    if dt == "bool":
+        fill = rng.choice([0, 0, 1])
+    tags.append("dtype:" + dt)
     ops = []
     n = rng.randint(1, maxlen)
+
+    def push_set(key, vsh, vflat):
+        op = {"k": "set", "key": key, "vsh": vsh, "vflat": vflat}
+        if dt != "int64":
+            op["vflat"], op["vk"] = retype_value(rng, dt, fill, vsh, vflat, tags)
+        ops.append(op)
+
     for i in range(n):
         last = i == n - 1
         r = rng.random()
+        if r < 0.06:
+            ops.append({"k": "round"})
+            tags.append("roundtrip")
+            continue
         if r < 0.72:
             kr = rng.random()
-            if kr < 0.78:
+            if kr < 0.16:
+                key = rnd_index_key(rng, shape, tags)
+                vsh, vflat = rnd_value(rng, fill, np_sel_shape(key, shape), tags)
+            elif kr < 0.78:
                 key = rnd_basic_key(rng, shape, tags)
                 vsh, vflat = rnd_value(rng, fill, sel_shape(key["es"], shape) if len(key["es"]) <= nd else [], tags)
             elif kr < 0.93:
@@ -382,7 +541,7 @@ def gen_history(rng, maxlen):
                     vsh, vflat = [1], [rng.randint(1, 9)]
                     tags.append("val:fancy_len1")
                 if corrupt:
-                    ops.append({"k": "set", "key": key, "vsh": vsh, "vflat": vflat})
+                    push_set(key, vsh, vflat)
                     break
             elif kr < 0.96 and nd == 1 and shape[0] > 0:
                 i0 = rng.randint(-shape[0], shape[0] - 1)
@@ -392,7 +551,7 @@ def gen_history(rng, maxlen):
                 tags.append("key:tuple_of_one_int")
                 vsh, vflat = [], [rng.randint(0, 9)]
                 if i0 < 0:
-                    ops.append({"k": "set", "key": key, "vsh": vsh, "vflat": vflat})
+                    push_set(key, vsh, vflat)
                     break
             else:
                 size = 1
@@ -402,12 +561,14 @@ def gen_history(rng, maxlen):
                        "render": "list" if nd == 1 and rng.random() < 0.5 else "ndarray"}
                 tags.append("key:mask")
                 vsh, vflat = [], [rng.randint(1, 9)]
-            ops.append({"k": "set", "key": key, "vsh": vsh, "vflat": vflat})
+            push_set(key, vsh, vflat)
             if vflat and all(v == fill for v in vflat):
                 tags.append("val:all_fill")
         else:
             kr = rng.random()
-            if kr < 0.8:
+            if kr < 0.25:
+                key = rnd_index_key(rng, shape, tags, for_read=True)
+            elif kr < 0.8:
                 key = rnd_basic_key(rng, shape, tags, for_read=True)
             elif kr < 0.95:
                 # reads cannot corrupt the dict: negative / too large indices are allowed anywhere
@@ -421,7 +582,7 @@ def gen_history(rng, maxlen):
                 tags.append("key:mask")
             tags.append("read")
             ops.append({"k": "get", "key": key})
-    return {"shape": shape, "fill": fill, "ops": ops, "origin": "random", "tags": tags}
+    return {"shape": shape, "fill": fill, "dtype": dt, "ops": ops, "origin": "random", "tags": tags}
 
 
 # ------------------------------------------------------------------ running and judging
@@ -437,7 +598,7 @@ def run_and_judge(build, name, cases, workers=6):
         idxmap.append(i)
     verdicts = {}
     if lits:
-        for j, code in build.judge(name, "From Verif Require Import Shape NpAssign DOK C12Judge.", "hist_case", "judge_hist", lits,
+        for j, code in build.judge(name, "From Verif Require Import Py Shape NpIndex NpAssign DOK DOKExt C12Judge.", "hist_case", "judge_hist", lits,
                                    chunk=250, timeout=600):
             verdicts[idxmap[j]] = code
     return res, verdicts, harness_bad
@@ -451,6 +612,10 @@ def decode(code):
 
 def key_src(key, shape):
     t = key["t"]
+    if t == "index":
+        es = [str(e[1]) if e[0] == "i" else f"slice({e[1]},{e[2]},{e[3]})" if e[0] == "s" else
+              "None" if e[0] == "n" else "..." for e in key["es"]]
+        return es[0] if len(es) == 1 else "(" + ",".join(es) + ")"
     if t == "basic":
         es = [str(e[1]) if e[0] == "i" else f"slice({e[1]},{e[2]},{e[3]})" for e in key["es"]]
         if len(es) == 1:
@@ -470,11 +635,24 @@ def key_src(key, shape):
 
 def describe(case):
     """the history as Python source lines"""
-    lines = [f"d = sparse.DOK({tuple(case['shape'])!r}, dtype=np.int64, fill_value={case['fill']})"]
+    lines = [f"d = sparse.DOK({tuple(case['shape'])!r}, dtype=np.{case.get('dtype', 'int64')}, fill_value={case['fill']})"]
     for op in case["ops"]:
+        if op["k"] == "round":
+            lines.append('d = sparse.DOK.from_coo(d.asformat("coo"))')
+            continue
         k = key_src(op["key"], case["shape"])
         if op["k"] == "set":
-            v = str(op["vflat"][0]) if not op["vsh"] else f"np.array({op['vflat']!r}).reshape({tuple(op['vsh'])!r})"
+            vk = op.get("vk", "int")
+            if vk == "pyfloat":
+                v = repr(op["vflat"][0] / 4.0)
+            elif vk == "npint":
+                v = f"np.int64({op['vflat'][0]})"
+            elif vk == "float":
+                v = f"np.array({[x / 4.0 for x in op['vflat']]!r}).reshape({tuple(op['vsh'])!r})"
+            elif not op["vsh"]:
+                v = str(op["vflat"][0])
+            else:
+                v = f"np.array({op['vflat']!r}).reshape({tuple(op['vsh'])!r})"
             lines.append(f"d[{k}] = {v}")
         else:
             lines.append(f"d[{k}]")
@@ -493,7 +671,7 @@ def replay_ops(case):
 def shrink(build, case, target, budget_rounds):
     """drop operations while the same (clause, kind) is still reported"""
     def norm(c):
-        return {"shape": c["shape"], "fill": c["fill"], "ops": c["ops"]}
+        return {"shape": c["shape"], "fill": c["fill"], "dtype": c.get("dtype", "int64"), "ops": c["ops"]}
     cur = norm(case)
     for rnd in range(budget_rounds):
         n = len(cur["ops"])
@@ -540,7 +718,7 @@ def campaign(build, tier, seed, report, budget=1):
     for i, code in sorted(verdicts.items()):
         step, clause, kind = decode(code)
         ops_i = cases[i]["ops"]
-        optype = "final" if step > len(ops_i) else ops_i[step - 1]["k"]
+        optype = "final" if step > len(ops_i) else ops_i[step - 1]["k"]   # set / get / round
         classes.setdefault((clause, kind, optype), []).append((i, step))
     for (clause, kind, optype), members in sorted(classes.items()):
         # representative: prefer a history without zero extents / empty values, failing early
@@ -556,10 +734,11 @@ def campaign(build, tier, seed, report, budget=1):
         r2 = impl_history_subprocess(small)
         v = {"property": "C12",
              "op": ("spec_vs_numpy" if kind == 7 else "final_observations" if optype == "final" else
-                    "setitem" if optype == "set" else "getitem"),
+                    "setitem" if optype == "set" else "roundtrip" if optype == "round" else "getitem"),
              "kind": KINDS.get(kind, "value"), "clause": CLAUSES.get(clause, f"clause_{clause}"),
              "verdict_kind": kind, "verdict_note": KIND_NOTE.get(kind),
-             "case": {"shape": small["shape"], "fill": small["fill"], "ops": small["ops"]},
+             "case": {"shape": small["shape"], "fill": small["fill"], "dtype": small.get("dtype", "int64"),
+                      "ops": small["ops"]},
              "python": describe(small), "impl": r2,
              "histories_in_class": len(members),
              "first_failing_history": {"index": i, "origin": case.get("origin"), "failing_step": step,
@@ -582,11 +761,14 @@ def campaign(build, tier, seed, report, budget=1):
             n_ops += 1
             if op["k"] == "set":
                 n_set += 1
-            else:
+            elif op["k"] == "get":
                 n_get += 1
             if "exc" in st["impl"]:
                 n_exc += 1
                 tags["impl:raised:" + st["impl"]["exc"]] = tags.get("impl:raised:" + st["impl"]["exc"], 0) + 1
+            if (op["k"] == "set" and op["key"]["t"] == "index" and any(e[0] == "n" for e in op["key"]["es"])
+                    and "exc" in st["impl"] and "exc" not in st["np"]):
+                tags["newaxis_assignment_rejected_by_impl"] = tags.get("newaxis_assignment_rejected_by_impl", 0) + 1
             if op["k"] == "set" and "exc" in st["np"] and "exc" not in st["impl"]:
                 tags["numpy_rejects_but_impl_accepts"] = tags.get("numpy_rejects_but_impl_accepts", 0) + 1
             if st["after"] != prev:
@@ -595,7 +777,7 @@ def campaign(build, tier, seed, report, budget=1):
                     tags["dict:shrunk"] = tags.get("dict:shrunk", 0) + 1
             prev = st["after"]
         if changed:
-            distinct.add(vlib.digest({k: c[k] for k in ("shape", "fill", "ops")}))
+            distinct.add(vlib.digest({k: c.get(k) for k in ("shape", "fill", "dtype", "ops")}))
     for (clause, kind, optype), members in classes.items():
         tags[f"verdict:{optype}:clause={CLAUSES.get(clause)}:kind={kind}"] = len(members)
     cov = report["coverage"]
@@ -604,7 +786,9 @@ def campaign(build, tier, seed, report, budget=1):
     cov["operations"] = {"total": n_ops, "assignments": n_set, "reads": n_get, "raised": n_exc}
     cov["rule"] = (f"{n_sweep} exhaustive 1-d slice-assignment histories (fill, assign through every slice with "
                    f"start/stop in None,-k..k and a fixed step set incl. 0, read the same slice back) + {n_rand} seeded "
-                   f"random histories (length <= {maxlen}) on 1-3-d shapes with extents 0..5; every step judged in Coq "
+                   f"random histories (length <= {maxlen}) of assignments (raw values cast to int64/int8/uint8/bool), reads and "
+                   "asformat('coo')/from_coo round trips on 1-3-d shapes with extents 0..5, keys with Ellipsis/None "
+                   "included; every step judged in Coq "
                    "against model and Spec from the implementation's own previous dict; distinct = distinct histories "
                    "in which the dict changed at least once")
     cov["exhaustive"] = False
@@ -613,6 +797,11 @@ def campaign(build, tier, seed, report, budget=1):
                            impl_final=res[i].get("final") if isinstance(res[i], dict) else res[i])
                       for i in (0, n_sweep // 2, n_sweep, len(cases) - 1) if i < len(cases)]
     cov["branch_tags"] = dict(sorted(tags.items()))
+    if tags.get("newaxis_assignment_rejected_by_impl"):
+        report["notes"].append(
+            f"{tags['newaxis_assignment_rejected_by_impl']} assignments through a key containing None were rejected "
+            "by the implementation (IndexError) while NumPy accepts them; the property's keys are newaxis-free, so "
+            "these are compared with the model only (Props/C12.v dok_newaxis_refuted)")
     if tags.get("numpy_rejects_but_impl_accepts"):
         report["notes"].append(
             f"{tags['numpy_rejects_but_impl_accepts']} assignments that NumPy rejects (non-broadcastable value, zero "
@@ -630,7 +819,7 @@ def impl_history_subprocess(case):
 
 
 def replay_line(case):
-    c = {"shape": case["shape"], "fill": case["fill"], "ops": case["ops"]}
+    c = {"shape": case["shape"], "fill": case["fill"], "dtype": case.get("dtype", "int64"), "ops": case["ops"]}
     return ("import sys, json; sys.path.insert(0, '/verif/tools'); import props.c12 as m; "
             f"m.replay_ops(json.loads({json.dumps(json.dumps(c))}))")
 
